@@ -34,6 +34,7 @@ class Ctx:
     """Per-check context handed to a property module."""
 
     def __init__(self, pid, tier="quick", root="/repo", seed=0, proj=None):
+        self.t0 = time.time()
         self.pid = pid
         self.tier = tier
         self.root = root
@@ -47,7 +48,6 @@ class Ctx:
         self.extra = {}
         self.functions_analysed = set()
         self.exhaustive = None
-        self.t0 = time.time()
 
     # ------------------------------------------------------------- record
     def touch(self, func):
